@@ -117,7 +117,7 @@ OverridesOnlyCopyP  == [][IsCopy => /\ OverridesApplied(ObsOf(st'), last'.ren[la
 LabelIterP          == [][IsCopy /\ "label" \notin DOMAIN last'.ovr =>
                              st'.lab[last'.ren[last'.o]] = (IF st.sty[last'.o] = "none" THEN st.lab[last'.o] ELSE Iter(st.lab[last'.o]))]_vars
 \* the clause dispatcher used by the trace validator agrees with the individual clauses
-CopyClauseP         == [][IsCopy => CopyClause(ObsOf(st), ObsOf(st'), last'.o, last'.ren, last'.ovr) = "ok"]_vars
+CopyClauseP         == [][IsCopy => CopyClause(ObsOf(st), ObsOf(st'), last'.o, last'.ren, last'.ovr, FreeByOverride(ObsOf(st), last'.o, last'.ovr)) = "ok"]_vars
 \* any later change is invisible to every object the operation does not address
 Independence == [][~IsCopy => IndependentStep(ObsOf(st), ObsOf(st'), HObjs(st) \ last'.touched)]_vars
 \* ... in the words of the property: for every (original, copy) pair living in different trees, a change on one
@@ -133,7 +133,7 @@ StepOK == LET pre == ObsOf(st)
               post == ObsOf(st')
               l == last'
           IN IF l.op = "copy"
-             THEN /\ CopyClause(pre, post, l.o, l.ren, l.ovr) = "ok"
+             THEN /\ CopyClause(pre, post, l.o, l.ren, l.ovr, FreeByOverride(pre, l.o, l.ovr)) = "ok"
                   /\ NoSharing(post, l.o, l.ren[l.o])
                   /\ (IF "label" \in DOMAIN l.ovr THEN post.lab[l.ren[l.o]] = l.ovr["label"]
                       ELSE post.lab[l.ren[l.o]] = (IF st.sty[l.o] = "none" THEN pre.lab[l.o] ELSE Iter(pre.lab[l.o])))
